@@ -14,9 +14,12 @@ demo() {
     r3_c06_a) (cd $D/demo && cargo run --offline -q --target-dir /tmp/r3_c06_a_demo_target >/dev/null 2>&1; echo $?) ;;
     c06_a|c06_c|r2_c06_a|r3_c06_b) (cd $D/demo && cargo run --offline -q >/dev/null 2>&1; echo $?) ;;
     r2_c06_b) (cd $D/demo && CARGO_TARGET_DIR=/tmp/seeded_out/r2_c06_b/demo_target cargo test --offline -q >/dev/null 2>&1; echo $?) ;;
+    r5_c06_a) (cd $D/demo && CARGO_TARGET_DIR=/tmp/wt_$a/target/demo cargo run --offline -q >/dev/null 2>&1; echo $?) ;;
+    r5_c06_b) (cd $D/demo && CARGO_TARGET_DIR=/tmp/wt_$a/target/demo cargo test --offline >/dev/null 2>&1; echo $?) ;;
     r4_c06_*) (cd $D/demo && CARGO_TARGET_DIR=/tmp/wt_$a/target/demo cargo run --offline -q >/dev/null 2>&1; echo $?) ;;
     r4_c19_b) (sh $D/run_demo.sh >/dev/null 2>&1; echo $?) ;;
-    r2_c19_*|r3_c19_*|r4_c19_a) (sh $D/demo/run.sh >/dev/null 2>&1; echo $?) ;;
+    r5_c19_a) ($D/demo/run.sh >/dev/null 2>&1; echo $?) ;;
+    r2_c19_*|r3_c19_*|r4_c19_a|r5_c19_b) (sh $D/demo/run.sh >/dev/null 2>&1; echo $?) ;;
     c06_b) (cd $D/demo && CARGO_TARGET_DIR=/tmp/seeded_out/c06_b/target cargo test --offline -q -- --test-threads=1 >/dev/null 2>&1; echo $?) ;;
     c19_*) ($D/demo/run.sh >/dev/null 2>&1; echo $?) ;;
   esac
